@@ -29,7 +29,9 @@ func NewParams(schema *Schema, su SimpleURL, resType string) (*Params, error) {
 	// Remove duplicates and uncessary includes
 	for i := len(incs) - 1; i >= 0; i-- {
 		if i > 0 {
-			if strings.HasPrefix(incs[i], incs[i-1]) {
+			// Only a path that is extended by the next one (or a
+			// duplicate) is unnecessary.
+			if incs[i] == incs[i-1] || strings.HasPrefix(incs[i], incs[i-1]+".") {
 				incs = append(incs[:i-1], incs[i:]...)
 			}
 		}
